@@ -293,6 +293,51 @@ def check(prop, tier="quick", base_seed=None, workers=None, n_override=None, wal
     return exit_code
 
 
+def scan(props, runs=150, base_seed=None, workers=None, out=sys.stdout):
+    """detect-only sweep used by the mutation scan (tools/mutscan.py): for each property run ``runs`` seeds, stop at the first
+    violation, do not minimise, write nothing.  Prints one line per property; exit 1 when something was caught."""
+    base_seed = DEFAULT_SEED if base_seed is None else int(base_seed)
+    workers = workers or min(16, os.cpu_count() or 4)
+    ctx = multiprocessing.get_context("fork")
+    caught_any = False
+    for prop in props:
+        t0 = time.time()
+        seeds = [(i, derive_seed(base_seed, prop, i)) for i in range(runs)]
+        hit = None
+        done = aborted = herr = 0
+        with ProcessPoolExecutor(max_workers=workers, mp_context=ctx, initializer=_init_worker, initargs=(prop,)) as ex:
+            try:
+                for res in ex.map(_task, seeds, chunksize=2):
+                    done += 1
+                    if "harness_error" in res:
+                        herr += 1
+                        if hit is None and herr >= 3:
+                            hit = ("HARNESS", res["harness_error"].strip().splitlines()[-1][:200])
+                            break
+                        continue
+                    aborted += 1 if res.get("aborted") else 0
+                    mine = [v for v in res["viol"] if v["property"] == prop]
+                    if mine:
+                        hit = (mine[0]["key"], f"seed={res['seed']} step={mine[0]['step']}: {mine[0]['msg'][:220]}")
+                        break
+            except Exception as e:
+                hit = ("HARNESS", repr(e)[:200])
+            for pr in list(getattr(ex, "_processes", {}).values()):
+                try:
+                    pr.terminate()
+                except Exception:
+                    pass
+        print(f"SCAN property={prop} caught={hit[0] if hit else 'none'} runs_done={done} aborted={aborted} wall={time.time() - t0:.1f}s {hit[1] if hit else ''}", file=out, flush=True)
+        if hit and hit[0] != "HARNESS":
+            caught_any = True
+            break
+        if aborted > 0.5 * max(1, done) and done >= 20:
+            print(f"SCAN property={prop} caught=ABORTS most runs stopped by an exception escaping HIVE", file=out, flush=True)
+            caught_any = True
+            break
+    return 1 if caught_any else 0
+
+
 def minimise_and_save(driver, prop, r, v, key):
     """regenerate the failing run, shrink it, write the replay file, replay it in a fresh interpreter"""
     rep = driver.minimise(r, v, key) if hasattr(driver, "minimise") else None
